@@ -29,6 +29,7 @@ import threading
 import time
 from collections.abc import Callable
 from urllib.parse import quote as _urlquote
+from urllib.parse import unquote as _urlunquote
 from urllib.parse import urlencode, urlparse
 
 import falcon
@@ -419,6 +420,10 @@ def _validate_original_url(url: str, prefix: str) -> str:
     parsed = urlparse(url)
     if parsed.scheme or parsed.netloc:
         # Not a relative URL — fall back to the prefix root
+        return prefix or "/"
+    # A browser collapses "." and ".." segments (also spelled "%2e") before
+    # following the redirect, so "/vgi/../admin" would leave the prefix.
+    if any(segment in (".", "..") for segment in _urlunquote(parsed.path).split("/")):
         return prefix or "/"
     # Match whole path segments: "/vgix" is a sibling of "/vgi", not under it.
     base = prefix.rstrip("/")
